@@ -81,6 +81,23 @@ def serveReqFile (P : Parsers) (H : List Char → Option (List Char → Bool)) (
     (lk : Nat → Option TargetM) (alive : Nat → Bool) (remote : List Char) (r : Req) : Result :=
   serveHTTP P lk alive remote (headerValues hXFF r.headers) (fun t => authorizedFile H t.scheme schemes r)
 
+/-- One event in the life of a basic-auth scheme instance, the file given as text: a request, or the refresh
+goroutine reloading the file (the empty text when the file has disappeared: the credentials are cleared). -/
+inductive AuthOpF where
+  | attempt (cred : Option (List Char × List Char))
+  | reload (text : List Char)
+
+def fileAfterF (text : List Char) : List AuthOpF → List Char
+  | [] => text
+  | .attempt _ :: h => fileAfterF text h
+  | .reload t :: h => fileAfterF t h
+
+/-- the verdicts of the attempts of a history: the scheme holds no state besides the table read from the file -/
+def runAuthF (H : List Char → Option (List Char → Bool)) (text : List Char) : List AuthOpF → List Bool
+  | [] => []
+  | .attempt c :: h => fileVerdict H text c :: runAuthF H text h
+  | .reload t :: h => runAuthF H t h
+
 /-- the file the harness writes for a list of pairs: one line `user:password` each -/
 def renderSecrets (secrets : List (List Char × List Char)) : List Char :=
   secrets.flatMap (fun (u, p) => u ++ ':' :: p ++ ['\n'])
